@@ -35,7 +35,8 @@ class OctBinding(NativeKeyBinding):
     @classmethod
     def import_from_bytes(cls, value: bytes, password: Any | None = None) -> bytes:
         # security check
-        if value.startswith(POSSIBLE_UNSAFE_KEYS):
+        # white space or a byte order mark in front does not make it less of a key file
+        if value.lstrip(b"\xef\xbb\xbf \t\r\n\x0b\x0c").startswith(POSSIBLE_UNSAFE_KEYS):
             warnings.warn("This key may not be safe to import")
         return value
 
